@@ -215,6 +215,8 @@ impl RawUnprocessedJSONArray {
                     token = ["".to_string(), char.to_string()].join(SYMBOL.empty_string);
                     let mut number_of_open_square_brackets = 1;
                     let mut number_of_closed_square_brackets = 0;
+                    // brackets inside a string value are text, not structure
+                    let mut is_inside_string = false;
 
                     let mut read_nested_array = true;
                     while read_nested_array {
@@ -231,13 +233,17 @@ impl RawUnprocessedJSONArray {
                         bytes_read = bytes_read + length as i128;
                         let char = (match String::from_utf8(char_buffer) { Ok(string) => string, Err(error) => return Err(error.to_string()) }).chars().last().unwrap();
 
-                        let is_open_square_bracket = char == '[';
+                        if char == '\"' && !token.ends_with('\\') {
+                            is_inside_string = !is_inside_string;
+                        }
+
+                        let is_open_square_bracket = char == '[' && !is_inside_string;
                         if is_open_square_bracket {
                             number_of_open_square_brackets = number_of_open_square_brackets + 1;
                         }
 
 
-                        let is_close_square_bracket = char == ']';
+                        let is_close_square_bracket = char == ']' && !is_inside_string;
                         if is_close_square_bracket {
                             number_of_closed_square_brackets = number_of_closed_square_brackets + 1;
                         }
@@ -258,6 +264,8 @@ impl RawUnprocessedJSONArray {
                     token = ["".to_string(), char.to_string()].join(SYMBOL.empty_string);
                     let mut number_of_open_curly_braces = 1;
                     let mut number_of_closed_curly_braces = 0;
+                    // braces inside a string value are text, not structure
+                    let mut is_inside_string = false;
 
                     let mut read_nested_object = true;
                     while read_nested_object {
@@ -274,13 +282,17 @@ impl RawUnprocessedJSONArray {
                         bytes_read = bytes_read + length as i128;
                         let char = (match String::from_utf8(char_buffer) { Ok(string) => string, Err(error) => return Err(error.to_string()) }).chars().last().unwrap();
 
-                        let is_open_curly_brace = char == '{';
+                        if char == '\"' && !token.ends_with('\\') {
+                            is_inside_string = !is_inside_string;
+                        }
+
+                        let is_open_curly_brace = char == '{' && !is_inside_string;
                         if is_open_curly_brace {
                             number_of_open_curly_braces = number_of_open_curly_braces + 1;
                         }
 
 
-                        let is_close_curly_brace = char == '}';
+                        let is_close_curly_brace = char == '}' && !is_inside_string;
                         if is_close_curly_brace {
                             number_of_closed_curly_braces = number_of_closed_curly_braces + 1;
                         }
